@@ -336,6 +336,16 @@ fn op_try_access<M: GuestMemory>(h: &mut H, mem: &M, a: u64, count: usize, r: &m
         return;
     }
     let run = h.flat.lay.run(a as u128);
+    if r.chance(1, 10) && run > 0 {
+        // a callback that claims more than the whole request: never Ok with more than `count`
+        let over = mem.try_access(count, GuestAddress(a), |_off, len, _caddr, _reg| Ok(len.saturating_add(count)));
+        match over {
+            Ok(t) if t > count => h.fail("try_access/over-reporting-callback-accepted", jobj! {"addr" => a, "count" => count, "got" => t}),
+            _ => {}
+        }
+        out::key("try_access|over-reporting-callback", true);
+        return;
+    }
     let partial = r.chance(1, 2);
     let stop_after = if r.chance(1, 4) { Some(r.usize_below(4)) } else { None };
     h.trace.push(format!("try_access(addr {:#x}, count {}, partial {}, stop_after {:?})", a, count, partial, stop_after));
